@@ -10,7 +10,7 @@
 (* Error states are leaves: no extension of the input can change the        *)
 (* outcome.                                                                 *)
 (***************************************************************************)
-EXTENDS JsonParser, TLC, Json
+EXTENDS JsonParser, CodeMapNav, TLC, Json
 
 CONSTANTS Alphabet, MaxLen, Prefix, Suffix, OptSet, DumpOn
 
@@ -35,9 +35,14 @@ TSpec == TInit /\ [][TNext]_vars
 \* the outcome if the input ended here (after the suffix)
 Final == Finish(RunFrom(st, Suffix, 1, o), o)
 
+\* accepted documents also carry the navigation expectations of C11
 Dump == DumpOn =>
-  PrintT(ToJson([k |-> "parse", w |-> Prefix \o w \o Suffix,
-                 o |-> <<o.trunc, o.inval>>, out |-> Outcome(Final)]))
+  LET f == Final IN
+  IF f.mode = "done"
+  THEN PrintT(ToJson([k |-> "parse", w |-> Prefix \o w \o Suffix, o |-> <<o.trunc, o.inval>>,
+                      out |-> Outcome(f), nav |-> Nav(f.val)]))
+  ELSE PrintT(ToJson([k |-> "parse", w |-> Prefix \o w \o Suffix, o |-> <<o.trunc, o.inval>>,
+                      out |-> Outcome(f)]))
 
 -----------------------------------------------------------------------------
 \* Invariants (design level)
